@@ -787,6 +787,54 @@ def run(ctx: Any, prog: Program) -> None:
                     filt = conds + skips
                     ctx.check('C06.V20', not filt, vm, filt[0] if filt else c, f'{qual20}: elements of `{U(lp20.iter)[:40]}` are written only when `{U(filt[0].test)[:60] if filt else ""}`: the others are missing from the file '
                               '(and from the map read back), although they are part of the object graph', func=qual20, text=f'{qual20}: all of {U(lp20.iter)[:40]} written')
+    # ---- V21: a key the writer emits once per element is read by iteration --------------------------------------------------------------
+    # `"visgroupid" "<id>"` is written in a loop over the memberships.  The Keyvalues single-value accessors (tree.int(key), tree[key],
+    # find_key) return ONE occurrence (the last); only a loop over the children / find_all(key) sees all of them.
+    ctx.rule('C06.V21', 'keys written once per element of a collection are read by iterating the block, not with a single-value accessor', floor=2)
+    SINGLE_ACCESS = {'int', 'float', 'bool', 'vec', 'find_key', 'find_block'}
+    n21 = 0
+    for cls21 in ('Solid', 'Entity', 'Side', 'VisGroup', 'EntityGroup'):
+        if not (vm.has_func(f'{cls21}.export') and vm.has_func(f'{cls21}.parse')):
+            continue
+        wfn, rfn = vm.func(f'{cls21}.export'), vm.func(f'{cls21}.parse')
+        looped_keys = set()
+        for em in emits_in(wfn):
+            in_loop = False
+            p_ = vm.parents.get(em.node)
+            while p_ is not None and p_ is not wfn:
+                if isinstance(p_, (ast.For, ast.While)):
+                    in_loop = True
+                p_ = vm.parents.get(p_)
+            if not in_loop:
+                continue
+            for ln in em.lines:
+                k_ = ln.literal(0)
+                if k_ and len(ln.strings) >= 2:
+                    looped_keys.add(k_.casefold())
+        for k_ in sorted(looped_keys):
+            single = []
+            iterated = False
+            for c in ast.walk(rfn):
+                if isinstance(c, ast.Call) and isinstance(c.func, ast.Attribute) and c.args and isinstance(c.args[0], ast.Constant) and isinstance(c.args[0].value, str) and c.args[0].value.casefold() == k_:
+                    if c.func.attr in SINGLE_ACCESS:
+                        single.append(c)
+                    elif c.func.attr in ('find_all', 'find_children'):
+                        iterated = True
+                if isinstance(c, ast.Subscript) and isinstance(c.slice, ast.Constant) and isinstance(c.slice.value, str) and c.slice.value.casefold() == k_ and isinstance(c.ctx, ast.Load):
+                    single.append(c)
+                if isinstance(c, ast.Compare) and len(c.ops) == 1 and isinstance(c.ops[0], ast.Eq) and isinstance(c.comparators[0], ast.Constant) and isinstance(c.comparators[0].value, str) \
+                        and c.comparators[0].value.casefold() == k_:
+                    par_ = vm.parents.get(c)
+                    while par_ is not None and par_ is not rfn and not isinstance(par_, ast.For):
+                        par_ = vm.parents.get(par_)
+                    iterated = iterated or isinstance(par_, ast.For)
+            if not single and not iterated:
+                continue          # the key is not read here at all (V1 looks at that)
+            n21 += 1
+            ctx.check('C06.V21', not single, vm, single[0] if single else rfn, f'{cls21}.export writes "{k_}" once per element of a collection, but {cls21}.parse reads it with `{U(single[0])[:50] if single else ""}`, which returns '
+                      'a single occurrence: an object with two or more of them keeps only the last after a re-parse', func=f'{cls21}.parse', text=f'{cls21} repeated key {k_}')
+    if n21 < 2:
+        raise AnalysisError(f'V21: only {n21} repeated keys found (visgroupid of Solid and of Entity confirmed by hand)')
     # ---- V18: positional constructor calls in the parsers agree with the declared field / parameter order ------------------------------
     ctx.rule('C06.V18', 'a parsed value reaches the field it was read for: locals passed positionally to a constructor sit at the position of the field of the same name', floor=0)
 
@@ -1005,6 +1053,12 @@ def run(ctx: Any, prog: Program) -> None:
                     ok = bool(fields & SIG_OK_FIELDS) and fields <= SIG_OK_FIELDS | {'self'}
                     ctx.check('C06.V3', ok, vm, em.node, f'`{U(s.node)}` is written with format spec `{s.spec}` (significant digits / fixed precision); '
                               'only face rotation, output delay and multiblend Vec4 values may lose precision this way', func=qual, text=f'spec {s.spec} on {U(s.node)[:40]}')
+                # ... and the converse for the output delay: the property promises six significant digits, which fixed decimals (format_float,
+                # round(x, n)) do not give for a small value - 1/128 s is written "0.007812" and read back 0.007812 instead of 0.0078125
+                conv3, inner3 = conversion_of(s.node)
+                if conv3 in ('format_float', 'round') and isinstance(inner3, ast.Attribute) and inner3.attr == 'delay' and not s.spec:
+                    ctx.check('C06.V3', False, vm, em.node, f'`{U(s.node)}` writes the output delay with a fixed number of decimals: small delays lose significant digits '
+                              '(the property allows a loss only beyond six significant digits - `{x:g}`)', func=qual, text=f'delay written with significant digits')
                 if not s.quoted:
                     continue
                 kind = ty.kind(s.node)
@@ -1358,6 +1412,8 @@ def elt_token_alternatives(elt: ast.AST, tokens_of_type: Dict[str, int]) -> Opti
 
 
 MUTANTS = [
+    {'id': 'solid_visgroupid_single_accessor', 'file': 'vmf.py', 'find': "            elif v.name == 'visgroupid':\n                try:\n                    visgroups.add(int(v.value))\n                except (ValueError, TypeError):\n                    pass\n", 'replace': "", 'extra': [{'file': 'vmf.py', 'find': "        return cls(\n            vmf_file,\n            solid_id,\n            sides,\n            visgroups,", 'replace': "        vis_one = tree.find_block('editor', or_blank=True).int('visgroupid', -1)\n        if vis_one != -1:\n            visgroups.add(vis_one)\n        return cls(\n            vmf_file,\n            solid_id,\n            sides,\n            visgroups,"}], 'expect': 'C06.V21'},
+    {'id': 'output_delay_fixed_decimals', 'file': 'vmf.py', 'find': "            f'{self.delay:g}{sep}{self.times}\"\\n'", 'replace': "            f'{format_float(self.delay)}{sep}{self.times}\"\\n'", 'expect': 'C06.V3'},
     {'id': 'uvaxis_zero_scale_replaced', 'file': 'vmf.py', 'find': "            scale=float(vals[4]),\n", 'replace': "            scale=float(vals[4]) or 0.25,\n", 'expect': 'C06.V19'},
     {'id': 'unused_groups_not_exported', 'file': 'vmf.py', 'find': "            for group in self.map.groups.values():\n                group.export(buffer, ind + '\\t')", 'replace': "            used_groups = {solid.group_id for solid in self.solids}\n            for group in self.map.groups.values():\n                if group.id in used_groups:\n                    group.export(buffer, ind + '\\t')", 'expect': 'C06.V20'},
     {'id': 'solid_vis_fields_swapped', 'file': 'vmf.py', 'find': "            vis_shown,\n            vis_auto_shown,\n            is_cordon,\n            editor_color,\n        )", 'replace': "            vis_auto_shown,\n            vis_shown,\n            is_cordon,\n            editor_color,\n        )", 'expect': 'C06.V18'},
